@@ -244,7 +244,12 @@ FImport(lazy) == { <<Import(f, p, l, s, m)>> : f \in {"string", "url"}, p \in Im
                      m1 \in {<<>>, <<I("screen", TRUE)>>}, m2 \in {<<>>, <<I("print", TRUE)>>} }
            \cup { <<Import("string", "a", "none", <<>>, <<>>), Import("string", "b", "none", <<>>, <<>>), Import("url", "a", "x", <<>>, <<>>)>>,
                   <<Import("string", "a", "none", <<>>, <<>>), Import("string", "a", "none", <<>>, <<>>), Import("string", "a", "none", <<>>, <<>>)>> }
+           (* an import after a rule that leaves nothing in the normal output (a converted or dropped :host rule) is after a rule *)
+           \cup { <<h, Import(f, "a", "none", <<>>, m)>> : f \in {"string", "url"}, m \in {<<>>, <<I("screen", TRUE)>>},
+                     h \in { Rule(HostSel, HD), Rule(HostSel \o <<Dl(".", TRUE), I("a", FALSE)>>, HD),
+                             Rule(<<Dl(".", FALSE), I("a", FALSE), Col(TRUE), I("host", FALSE)>>, HD) } }
 ImportOpts == {[NoOpt EXCEPT !.importSign = s, !.prefix = p] : s \in {"none", "IMP"}, p \in {"none", "p"}}
+              \cup {[NoOpt EXCEPT !.importSign = "IMP", !.host = TRUE], [NoOpt EXCEPT !.importSign = "IMP", !.host = TRUE, !.hostIs = "IS", !.prefix = "p"]}
 
 -----------------------------------------------------------------------------
 Sheets == CASE Family = "sel" -> FSel(0) [] Family = "val" -> FVal(0) [] Family = "tok" -> FTok(0) [] Family = "calc" -> FCalc(0)
